@@ -2233,4 +2233,104 @@ theorem corrupted_rejected_sexp (io : DblIO D) (pr : Prec) (vd : Bool) (S A : Na
 example : Junk (ratIO 0) "abc".toList ∧ Junk (ratIO 0) "nan".toList ∧ Junk (ratIO 0) "inf".toList ∧ ¬ Junk (ratIO 0) "1e999".toList := by
   unfold Junk; decide +kernel
 
+/-! ### the driver's `printf("%.*g")` emits clean tokens -/
+
+def okC (c : Char) : Bool := isDig c || c == '-' || c == '+' || c == '.' || c == 'e'
+
+theorem okC_not_ws (c : Char) (h : okC c = true) : isWs c = false := by
+  simp only [okC, Bool.or_eq_true, beq_iff_eq] at h
+  rcases h with (((h | h) | h) | h) | h
+  · simp only [isDig, Bool.and_eq_true, decide_eq_true_eq] at h
+    simp only [isWs, Bool.or_eq_false_iff, beq_eq_false_iff_ne, ne_eq]
+    refine ⟨⟨⟨⟨⟨?_, ?_⟩, ?_⟩, ?_⟩, ?_⟩, ?_⟩ <;> (intro hc; try (subst hc; revert h; decide)) <;> omega
+  all_goals (subst h; decide)
+
+theorem all_dig_printN (n : Nat) : ∀ c ∈ printN n, isDig c = true := by
+  intro c hc
+  simp only [printN, List.mem_map] at hc
+  obtain ⟨d, hd, rfl⟩ := hc
+  exact isDig_digitChar d (digits_lt10 n d hd)
+
+theorem all_dig_padDigits (w n : Nat) : ∀ c ∈ padDigits w n, isDig c = true := by
+  intro c hc
+  simp only [padDigits, List.mem_append, List.mem_replicate] at hc
+  rcases hc with ⟨_, rfl⟩ | hc
+  · decide
+  · exact all_dig_printN n c hc
+
+theorem padDigits_ne_nil (w n : Nat) : padDigits w n ≠ [] := by
+  have := (printN_clean n).1
+  simp [padDigits, this]
+
+theorem mem_stripZeros (l : List Char) (c : Char) (h : c ∈ stripZeros l) : c ∈ l := by
+  simp only [stripZeros, List.mem_reverse] at h
+  have := (List.dropWhile_sublist (fun x => x == '0') (l := l.reverse)).subset h
+  simpa using this
+
+theorem dig_okC (c : Char) (h : isDig c = true) : okC c = true := by simp [okC, h]
+
+theorem fracStr_okC (l : List Char) (hl : ∀ c ∈ l, isDig c = true) : ∀ c ∈ fracStr l, okC c = true := by
+  intro c hc
+  unfold fracStr at hc
+  simp only [] at hc
+  split at hc
+  · simp at hc
+  · rcases List.mem_cons.mp hc with rfl | hc
+    · decide
+    · exact dig_okC c (hl c (mem_stripZeros l c hc))
+
+theorem gText_clean (p : Nat) (neg : Bool) (ds : List Char) (x : Int) (hds : ∀ c ∈ ds, isDig c = true) (hne : ds ≠ []) :
+    CleanTok (gText p neg ds x) := by
+  have hsign : ∀ c ∈ (if neg then ['-'] else [] : List Char), okC c = true := by
+    intro c hc; cases neg <;> simp at hc; subst hc; decide
+  have hall : ∀ c ∈ gText p neg ds x, okC c = true := by
+    intro c hc
+    unfold gText at hc
+    simp only [] at hc
+    split at hc
+    · simp only [List.mem_append, List.mem_cons, List.mem_nil_iff, or_false] at hc
+      rcases hc with (((hc | hc) | hc) | hc) | hc
+      · exact hsign c hc
+      · exact dig_okC c (hds c (List.mem_of_mem_take hc))
+      · exact fracStr_okC _ (fun d hd => hds d (List.mem_of_mem_drop hd)) c hc
+      · rcases hc with rfl | rfl
+        · decide
+        · split <;> decide
+      · exact dig_okC c (all_dig_padDigits _ _ c hc)
+    · split at hc
+      · simp only [List.mem_append] at hc
+        rcases hc with (hc | hc) | hc
+        · exact hsign c hc
+        · exact dig_okC c (hds c (List.mem_of_mem_take hc))
+        · exact fracStr_okC _ (fun d hd => hds d (List.mem_of_mem_drop hd)) c hc
+      · simp only [List.mem_append, List.mem_cons, List.mem_nil_iff, or_false] at hc
+        rcases hc with (hc | rfl) | hc
+        · exact hsign c hc
+        · decide
+        · refine fracStr_okC _ ?_ c hc
+          intro d hd
+          rcases List.mem_append.mp hd with hd | hd
+          · simp only [List.mem_replicate] at hd; rw [hd.2]; decide
+          · exact hds d hd
+  refine ⟨?_, fun c hc => okC_not_ws c (hall c hc)⟩
+  unfold gText
+  simp only []
+  split
+  · simp
+  · split
+    · cases ds with
+      | nil => exact absurd rfl hne
+      | cons a b => simp
+    · simp
+
+theorem printDQ_clean (p : Nat) (q : Rat) : CleanTok (printDQ p q) := by
+  unfold printDQ
+  simp only []
+  split
+  · exact ⟨by simp, by intro c hc; simp at hc; subst hc; decide⟩
+  · exact gText_clean _ _ _ _ (all_dig_padDigits _ _) (padDigits_ne_nil _ _)
+
+/-- the driver's instance writes clean tokens: the byte-level theorems apply to it unconditionally -/
+theorem ratIO_printClean (tol : Rat) : PrintClean (ratIO tol) := fun p d => printDQ_clean p d
+
 end AITB.Codec
